@@ -61,6 +61,9 @@ def run(ctx: core.Ctx):
               T._compute_expectation_value, T.z_pauli_from_bitstring):
         ctx.under_contract(f)
     ctx.selfcheck["oracle_gate_rules_checked_densely"] = P.selftest()
+    from ..contracts import pipeline as _pl
+    from .. import symrun as _sr
+    _sr.run(ctx, _pl.tomography_glue_tasks(), label="tomography-glue")      # density_matrix() = linear inversion of expectation_values(), for every input
     from .. import prereq
     prereq.pipeline_contracts(ctx)       # the readout circuit exists and is correct for EVERY valid stabilizer (glue + layer-search contracts), not only the sampled members
     rnd = random.Random(ctx.seed + 12)
